@@ -99,6 +99,25 @@ def run(ck):
         if not np.allclose(M2, np.asarray(fit['matrix'], dtype=float), rtol=1e-9, atol=1e-12 * (1 + np.abs(m).max())):
             ck.violation({'kind': 'build_fit_matrix(rot, scale) != matrix', 'matrix': m.tolist(), 'fitgeom': geom,
                           'rot': fit['rot'], 'scale': fit['scale'], 'rebuilt': M2.tolist()})
+        # the documented scalar forms: a single rotation / a single scale stand for both axes, and the
+        # similarity-fit reports (<rot>, <scale>) rebuild the matrix of a proper similarity
+        ck.search_evaluations += 1
+        r0, s0 = float(fit['rot'][0]), float(fit['scale'][0])
+        forms = {'(rot, scale) scalars': (lf.build_fit_matrix(r0, s0), lf.build_fit_matrix((r0, r0), (s0, s0))),
+                 'scalar rot, tuple scale': (lf.build_fit_matrix(r0, fit['scale']), lf.build_fit_matrix((r0, r0), fit['scale'])),
+                 'tuple rot, scalar scale': (lf.build_fit_matrix(fit['rot'], s0), lf.build_fit_matrix(fit['rot'], (s0, s0))),
+                 'defaults': (lf.build_fit_matrix(r0), lf.build_fit_matrix((r0, r0), (1.0, 1.0)))}
+        for fname, (ma, mb) in forms.items():
+            if not np.array_equal(np.asarray(ma), np.asarray(mb)):
+                ck.violation({'kind': 'build_fit_matrix scalar form differs from the tuple form', 'form': fname,
+                              'rot': fit['rot'], 'scale': fit['scale'], 'scalar_form': np.asarray(ma).tolist(),
+                              'tuple_form': np.asarray(mb).tolist()})
+        if geom in ('rshift', 'rscale') and fit['proper']:
+            M3 = lf.build_fit_matrix(fit['<rot>'], fit['<scale>'])
+            if not np.allclose(M3, np.asarray(fit['matrix'], dtype=float), rtol=1e-9, atol=1e-12 * (1 + np.abs(m).max())):
+                ck.violation({'kind': 'build_fit_matrix(<rot>, <scale>) != matrix of a proper similarity fit',
+                              'matrix': m.tolist(), 'fitgeom': geom, '<rot>': fit['<rot>'], '<scale>': fit['<scale>'],
+                              'rebuilt': M3.tolist()})
         if t < 3:
             ck.sample({'matrix': m.tolist(), 'fitgeom': geom, 'rot': fit['rot'], 'scale': fit['scale'],
                        'skew': fit['skew'], '<rot>': fit['<rot>'], 'proper': bool(fit['proper'])})
